@@ -1,4 +1,38 @@
-import ZorgVerif.Model.Zo
+import ZorgVerif.Lemmas.NoteText
+/-!
+# C05 — After `db create` index and files agree; files change only to gain ZIDs
+Model: `Model/NoteText.lean` (`_add_zid_to_line`, `_pop_line_before_zid`, `_update_zo_file`, `_add_zids`,
+transcribed on characters with Python's `split(" ")` / `" ".join`).  The store-level statements
+(agreement of index and files, idempotence) are proved in `Props/C06.lean` for the abstract index model
+under the law that the write-back text recompiles to the indexed page; that law is what this check's
+correspondence run establishes on real directories (index rows vs recompiled files).
+-/
 namespace ZorgVerif.C05
-theorem C05_placeholder : (1 : Nat) = 1 := rfl
+open ZorgVerif ZorgVerif.NoteText
+
+/-- **The ZID is inserted right after the kind / priority prefix** — for every first line of the shape
+`indent kind [Pn] extra-spaces body…`: indentation and prefix are kept, a leading `YYYY-MM-DD` creation
+date is replaced, every later word is kept verbatim (extra spaces after the prefix are dropped). -/
+theorem C05_zid_after_prefix (zid : Str) (k j : Nat) (sym : Str) (prio body : List Str) (h : Shape sym prio j body)
+    (hsp : ∀ w ∈ shapeWords k sym prio j body, ' ' ∉ w) :
+    addZidToLine zid (joinSp (shapeWords k sym prio j body)) =
+      .ok (shapePre k sym prio ++ zid ++ [' '] ++ joinSp (dropLeading isLongDate body)) :=
+  addZidToLine_shape zid k j sym prio body h hsp
+
+/-- **Minimal diff**: rewriting touches only the first lines of the listed notes; the number of lines and
+every other line are unchanged. -/
+theorem C05_minimal_diff (f : Str → Str → Except Err Str) (us : List Upd) (ls ls' : List Str)
+    (h : updateLines f us ls = .ok ls') :
+    ls'.length = ls.length ∧ ∀ i, (∀ u ∈ us, u.lineNo - 1 ≠ i) → ls'[i]? = ls[i]? :=
+  updateLines_spec f us ls ls' h
+
+/-- splitting a line at spaces and joining it again is the identity (the rewriting loses no character) -/
+theorem C05_split_join (s : Str) : joinSp (splitOn ' ' s) = s := joinSp_splitOn s
+
+/-! Non-vacuity and the repaired corner cases, evaluated by the kernel -/
+example : (addZidToLine "240615#00".toList "  o P1   2024-01-02 spaced  todo".toList).toOption = some ("  o P1 240615#00 spaced  todo".toList) := by decide +kernel
+example : (addZidToLine "240615#00".toList "- P5 is a word".toList).toOption = some ("- 240615#00 P5 is a word".toList) := by decide +kernel
+example : (addZidToLine "240615#00".toList "- 1234567890 is my phone".toList).toOption = some ("- 240615#00 1234567890 is my phone".toList) := by decide +kernel
+example : addZidToBody "240615#00".toList "2024-01-02 spaced  todo".toList = "240615#00 spaced  todo".toList := by decide +kernel
+
 end ZorgVerif.C05
